@@ -6,7 +6,7 @@ use crate::axecutor::Axecutor;
 use crate::helpers::errors::AxError;
 
 use crate::helpers::macros::calculate_r_rm;
-use crate::helpers::macros::calculate_rm_r;
+use crate::helpers::operand::Operand;
 use crate::helpers::macros::fatal_error;
 use crate::state::flags::*;
 
@@ -30,9 +30,13 @@ impl Axecutor {
     fn instr_movzx_r16_rm8(&mut self, i: Instruction) -> Result<(), AxError> {
         debug_assert_eq!(i.code(), Movzx_r16_rm8);
 
-        calculate_rm_r![u16f; u8; self; i; |_, s| {
-            (s as u16, 0)
-        }; (set: FLAGS_UNAFFECTED; clear: 0)]
+        let (dest, src) = self.instruction_operands_2(i)?;
+        let src_val = match src {
+            Operand::Register(r) => self.reg_read_8(r)?,
+            Operand::Memory(m) => self.mem_read_8(self.mem_addr(m))?,
+            _ => fatal_error!("Invalid source operand {:?} for MOVZX r16, r/m8", src),
+        };
+        self.reg_write_16(dest.into(), src_val)
     }
 
     /// MOVZX r32, r/m8
@@ -41,9 +45,13 @@ impl Axecutor {
     fn instr_movzx_r32_rm8(&mut self, i: Instruction) -> Result<(), AxError> {
         debug_assert_eq!(i.code(), Movzx_r32_rm8);
 
-        calculate_rm_r![u32f; u8; self; i; |_, s| {
-            (s as u32, 0)
-        }; (set: FLAGS_UNAFFECTED; clear: 0)]
+        let (dest, src) = self.instruction_operands_2(i)?;
+        let src_val = match src {
+            Operand::Register(r) => self.reg_read_8(r)?,
+            Operand::Memory(m) => self.mem_read_8(self.mem_addr(m))?,
+            _ => fatal_error!("Invalid source operand {:?} for MOVZX r32, r/m8", src),
+        };
+        self.reg_write_32(dest.into(), src_val)
     }
 
     /// MOVZX r64, r/m8
@@ -52,9 +60,13 @@ impl Axecutor {
     fn instr_movzx_r64_rm8(&mut self, i: Instruction) -> Result<(), AxError> {
         debug_assert_eq!(i.code(), Movzx_r64_rm8);
 
-        calculate_rm_r![u64f; u8; self; i; |_, s| {
-            (s as u64, 0)
-        }; (set: FLAGS_UNAFFECTED; clear: 0)]
+        let (dest, src) = self.instruction_operands_2(i)?;
+        let src_val = match src {
+            Operand::Register(r) => self.reg_read_8(r)?,
+            Operand::Memory(m) => self.mem_read_8(self.mem_addr(m))?,
+            _ => fatal_error!("Invalid source operand {:?} for MOVZX r64, r/m8", src),
+        };
+        self.reg_write_64(dest.into(), src_val)
     }
 
     /// MOVZX r32, r/m16
